@@ -171,6 +171,14 @@ type Spec struct {
 
 	// Many adds a generated run of streams (nil = none).
 	Many *Many `json:",omitempty"`
+
+	// MiniFree places MiniHole unallocated (FREESECT) mini sectors inside the
+	// mini stream: before the first used one (FreeStart), in the middle of the
+	// used ones (FreeMiddle; may fall inside one stream's chain) or after the
+	// last used one, still inside the declared mini stream (FreeTrailing).
+	// "" = none. The file must have at least one mini-stream-sized stream.
+	MiniFree string `json:",omitempty"`
+	MiniHole int    `json:",omitempty"`
 }
 
 // AllStreams returns every stream of the file by path ("name" in the root
@@ -254,6 +262,9 @@ func (s Spec) ID() string {
 		}
 	}
 	out += "/free=" + s.Free + "/mini=" + s.Mini + "/tree=" + s.Tree
+	if s.MiniFree != "" {
+		out += fmt.Sprintf("/minifree=%s,%d", s.MiniFree, s.MiniHole)
+	}
 	if s.UnusedFirst {
 		out += "/unused-first"
 	}
